@@ -18,6 +18,9 @@ one production per precedence level, `left : L`, `right : L - 1` (left associati
 * `C02.brackets_reenter`, `C02.redundant_brackets_parse` : a bracket group whose content is accepted as a whole with tree `e` is an
   element with the SAME tree `e` (at the parser: `pElement d (f+2) (g :: rest) = ok (e, rest)`), whatever the level of `e`:
   brackets only change where the tree may stand, never the tree.
+* `C02.parse_text_derives` : the same from the TEXT (pre-pass, lexer, entry-point fuel) for `parse_logical_or_level_expression`.
+* `C02.derives_shape` : `Derives d L ts e → PR.lvl e ≤ max L 2 ∨ ts is one bracket group` — the operand invariant in terms of the
+  printer's level function, valid at every sub-derivation; `parse_shape_*`: at the parser.
 * `C02.parse_deterministic` : the tree and the rest do not depend on the fuel.
 Deviations of the code from the documented table that `Derives` has to admit (each with the Python line) are listed in
 ParseWN0.lean (DEVIATION 1–5); `C02.binary_bang_witness` / `reserved_word_column_witness` are evaluated witnesses on the model.
@@ -152,6 +155,35 @@ theorem parse_shape_not (d : Gen.D) (f : Nat) (ts : List Tok) (e : Expr) (rest :
     ∃ used, ts = used ++ rest ∧ (PR.lvl e ≤ 11 ∨ ∃ g, used = [g] ∧ g.has PAREN = true) := by
   obtain ⟨u, hu, hd⟩ := parse_derives_not d f ts e rest h
   exact ⟨u, hu, by simpa using WNG.derives_shape hd⟩
+
+/-! ### at text level: the public entry point, lexer included -/
+theorem W02.entry_or : entries.find? (·.1 == "logical_or_level_expression") = some ("logical_or_level_expression", exprEntry pOr) := by
+  rfl
+/-- **C02 for every accepted TEXT** (`SQLParser.parse_logical_or_level_expression(text, sql_type)` = dialect pre-pass ∘ lexer ∘ parser
+with the fuel the entry point computes): whatever value it returns is the tree the documented grammar derives from the tokens the
+lexer produced, minus the `k` unconsumed ones. -/
+theorem parse_text_derives (d : Gen.D) (text : List Char) (v : Val) (k : Nat)
+    (h : parseText "logical_or_level_expression" d text = .ok (v, k)) :
+    ∃ ts used rest e, lex Gen.cfgS (dialectPre d text) = .ok ts ∧ ts = used ++ rest ∧ rest.length = k ∧ v = e.toVal ∧
+      Derives d 14 used e := by
+  unfold parseText at h
+  rw [W02.entry_or] at h
+  simp only at h
+  split at h
+  · cases h
+  · rename_i ts hl
+    simp only [exprEntry] at h
+    split at h
+    · rename_i v' r hp
+      split at hp
+      · rename_i e r' hq
+        simp only [Except.ok.injEq, Prod.mk.injEq] at hp h
+        obtain ⟨rfl, rfl⟩ := hp
+        obtain ⟨rfl, rfl⟩ := h
+        obtain ⟨u, hu, hd⟩ := parse_derives d _ ts e r' hq
+        exact ⟨ts, u, r', e, hl, hu, rfl, rfl, hd⟩
+      · cases hp
+    · cases h
 
 /-! ### non-vacuity and witnesses -/
 namespace W02
